@@ -72,24 +72,34 @@ Check (C09_record_parse_is_spec : forall msg c p s, whole msg c ->
     a_data_ok it = (a_type_off it + 10 + a_rdlen it <=? lenN msg)
   | None => exists c' e, (do* _ <- lift_c (skip_name msg); m_raw_marker msg p s) c = (c', Err e)
   end).
-Check (C09_reader_refines : forall msg, lenN msg <= 65535 -> 12 <= lenN msg ->
-  forall nq an ns ar qs rs e1 e2,
-  chain msg question_at (fun _ => True) 12 qs e1 ->
-  chain msg record_at (fun it => a_data_ok it = true) e1 rs e2 ->
-  lenN qs = nq -> lenN rs = an + ns + ar -> nq <= 65535 -> an <= 65535 -> ns <= 65535 -> ar <= 65535 ->
+Check (C09_reader_refines : forall msg nq an ns ar qs rs e1 e2, parsed msg nq an ns ar qs rs e1 e2 ->
   forall ops r idx hw idx' hw',
   RState msg nq an ns ar qs rs e2 r idx hw -> allowed nq an ns ar ops idx hw = Some (idx', hw') ->
+  within nq an ns ar qs rs ops idx hw ->
   exists r', RState msg nq an ns ar qs rs e2 r' idx' hw' /\ prescribed msg nq an ns ar qs rs r' ops r idx hw).
-Check (C09_reader_start : forall msg, lenN msg <= 65535 -> 12 <= lenN msg ->
-  forall nq an ns ar qs rs e1 e2,
-  chain msg question_at (fun _ => True) 12 qs e1 ->
-  chain msg record_at (fun it => a_data_ok it = true) e1 rs e2 ->
-  lenN qs = nq -> lenN rs = an + ns + ar -> nq <= 65535 -> an <= 65535 -> ns <= 65535 -> ar <= 65535 ->
+Check (C09_complete_is_within : forall nq an ns ar qs rs, lenN qs = nq -> lenN rs = an + ns + ar ->
+  forall ops idx hw res, allowed nq an ns ar ops idx hw = Some res -> within nq an ns ar qs rs ops idx hw).
+Check (C09_unparsable_question_fails : forall msg nq an ns ar qs rs e1 e2, parsed msg nq an ns ar qs rs e1 e2 ->
+  forall r idx hw, RState msg nq an ns ar qs rs e2 r idx hw ->
+  idx = lenN qs -> idx < nq -> question_at msg e2 = None ->
+  exists r' e, rd_question msg false true r = (r', Err e) /\ r_done r' = true).
+Check (C09_unparsable_record_fails : forall msg nq an ns ar qs rs e1 e2, parsed msg nq an ns ar qs rs e1 e2 ->
+  forall r idx hw, RState msg nq an ns ar qs rs e2 r idx hw ->
+  lenN qs = nq -> idx = nq + lenN rs -> lenN rs < an + ns + ar ->
+  match record_at msg e2 with
+  | None => exists r' e, rd_marker msg r = (r', Err e) /\ r_done r' = true
+  | Some it =>
+    a_data_ok it = false ->
+    let mk := mkMarker e2 (a_type_off it) (a_type it) (a_class it) (a_ttl it) (a_rdlen it) (section_of (lin nq an ns ar) (idx - nq)) in
+    exists r1 r2 e, rd_marker msg r = (r1, Ok (OMarker mk)) /\ rd_skip_data mk r1 = (r2, Err e) /\ r_done r2 = true
+  end).
+Check (C09_reader_start : forall msg nq an ns ar qs rs e1 e2, parsed msg nq an ns ar qs rs e1 e2 ->
   forall h c, h_qd h = nq -> h_an h = an -> h_ns h = ns -> h_ar h = ar -> whole msg c -> pos c = 12 ->
   RState msg nq an ns ar qs rs e2 (mkReader c (tr_set tr_default h) false) 0 0).
-Check (C09_linear_pass_gives_chains : forall msg l, linear_of msg = Some l ->
-  lenN (l_qs l) = l_nq l -> lenN (l_rs l) = nrec l -> Forall (fun it => a_data_ok it = true) (l_rs l) ->
-  lenN msg <= 65535 /\ 12 <= lenN msg /\ l_nq l <= 65535 /\ l_an l <= 65535 /\ l_ns l <= 65535 /\ l_ar l <= 65535 /\
-  exists e1 e2, chain msg question_at (fun _ => True) 12 (l_qs l) e1 /\
-                chain msg record_at (fun it => a_data_ok it = true) e1 (l_rs l) e2).
-Print Assumptions C09_stays_exhausted. Print Assumptions C09_error_latches. Print Assumptions C09_tracker_refines. Print Assumptions C09_tracker_init. Print Assumptions C09_counts. Print Assumptions C09_seek. Print Assumptions C09_record_section. Print Assumptions C09_tracker_example. Print Assumptions C09_question_parse_is_spec. Print Assumptions C09_record_parse_is_spec. Print Assumptions C09_reader_refines. Print Assumptions C09_reader_start. Print Assumptions C09_linear_pass_gives_chains.
+Check (C09_linear_pass_parses : forall msg l, linear_of msg = Some l ->
+  let rs := filter a_data_ok (l_rs l) in
+  exists e1 e2, parsed msg (l_nq l) (l_an l) (l_ns l) (l_ar l) (l_qs l) rs e1 e2 /\
+    (lenN (l_qs l) < l_nq l -> question_at msg e2 = None) /\
+    (lenN (l_qs l) = l_nq l -> lenN rs < nrec l ->
+     match record_at msg e2 with Some it => a_data_ok it = false | None => True end)).
+Print Assumptions C09_stays_exhausted. Print Assumptions C09_error_latches. Print Assumptions C09_tracker_refines. Print Assumptions C09_tracker_init. Print Assumptions C09_counts. Print Assumptions C09_seek. Print Assumptions C09_record_section. Print Assumptions C09_tracker_example. Print Assumptions C09_question_parse_is_spec. Print Assumptions C09_record_parse_is_spec. Print Assumptions C09_reader_refines. Print Assumptions C09_complete_is_within. Print Assumptions C09_unparsable_question_fails. Print Assumptions C09_unparsable_record_fails. Print Assumptions C09_reader_start. Print Assumptions C09_linear_pass_parses.
